@@ -15,6 +15,7 @@ from .framework import Tie
 DIRECTIVES = ['org', 'memzone', 'align']
 DATATYPES = ['fill', 'zero', 'zerountil', 'byte', '2byte', '4byte', '8byte', 'cstr', 'asciiz']
 PLACEHOLDER = re.compile(r'##[A-Z_]+##')
+PREPROCESSOR = ['include', 'require', 'create_memzone', 'define', 'if', 'elif', 'else', 'endif', 'ifdef', 'ifndef', 'mute', 'unmute', 'emit']
 
 
 def isa_yaml(case):
@@ -188,6 +189,17 @@ def impl_vocab(case):
                 got = first_rule(rules, r)
                 if got != 'variable.language.register':
                     raise SystemExit(f'{where}: register {r!r} written as an operand is classified as {got}')
+        # every preprocessor keyword is classified as a whole (#ifdef is not '#if' + 'def')
+        v_pre = [pt['match'] for it in g['directives']['patterns'] if it.get('name') == 'meta.preprocessor'
+                 for pt in it.get('patterns', []) if pt.get('name') == 'keyword.control.preprocessor']
+        s_pre = [r_['match'] for r_ in ctx['preprocessor_directives'][0]['push'] if r_.get('scope') == 'keyword.control.preprocessor']
+        if len(v_pre) != 1 or len(s_pre) != 1:
+            raise SystemExit('preprocessor keyword rule missing')
+        for kw in PREPROCESSOR:
+            for where, pat in (('vscode', v_pre[0]), ('sublime', s_pre[0])):
+                m = re.search(pat, '#' + kw + ' x')
+                if m is None or m.group(0) != kw:
+                    raise SystemExit(f'{where}: #{kw} is classified as {m.group(0) if m else None!r}')
         out = {'vscode': [], 'sublime': []}
         for pr in case['probes']:
             vo = {_search(x, pr) for x in v_ops}
@@ -256,7 +268,7 @@ def gen_vocab_cases(rng, tier):
                 keycase[nm] = rng.choice([nm.upper(), nm.capitalize()])
         out.append({'instrs': instrs, 'macros': macros, 'regs': regs, 'labels': labels, 'probes': probes, 'keycase': keycase,
                     # the language name names the generated files: also names that begin with a dot or contain one
-                    'lang': rng.choice(['vocab-test', 'vocab-test', '.tiny8', 'cpu.v2', 'my_lang']),
+                    'lang': rng.choice(['vocab-test', 'vocab-test', '.tiny8', 'cpu.v2', 'my_lang', 'R&D-cpu', 'a<b']),
                     'description': rng.choice(['verif vocab', 'Tiny 8-bit CPU <R&D build>, "rev. B"', "it's <b>bold</b> & more", 'plain'])})
     return out
 
